@@ -6,6 +6,7 @@ package main
 // cannot hide a change in behaviour.
 
 import (
+	"strings"
 	"bufio"
 	"encoding/json"
 	"fmt"
@@ -252,4 +253,19 @@ func mustJSON(v interface{}) string {
 		return "null"
 	}
 	return string(b)
+}
+
+// shapeOK: a token stream handed to a Tokens() consumer must end with exactly one terminator (end of file or error)
+// and contain none before it - otherwise the consumer stops early or waits forever (the Shape property of Pipeline.tla).
+func shapeOK(classes []string) bool {
+	isTerm := func(c string) bool { return c == "eof" || c == "err" || strings.HasPrefix(c, "eof:") || strings.HasPrefix(c, "err:") }
+	if len(classes) == 0 || !isTerm(classes[len(classes)-1]) {
+		return false
+	}
+	for _, c := range classes[:len(classes)-1] {
+		if isTerm(c) {
+			return false
+		}
+	}
+	return true
 }
